@@ -4,6 +4,7 @@
 #include "scen/common.h"
 #include "scen/ref/sha1_b64.h"
 #include "sim/net.h"
+#include <algorithm>
 #include <asl/WebSocket.h>
 #include <asl/Socket.h>
 #include <asl/String.h>
@@ -255,6 +256,7 @@ void genFramer(Prng& r, Plan& p, int tier)
 	}
 	applyNetKnobs(r, p);
 	p.p["abrupt"] = r.below(5) == 0; // the framer closes the connection right behind its last frame
+	p.p["conn_hdr"] = r.below(3);
 }
 
 uint32_t keyOf(int kind, uint64_t seed)
@@ -540,7 +542,9 @@ void runFramer(const Plan& p)
 		srv->start(true);
 		int fd = sim::net::rawConnectTcp(PORT);
 		std::string key = ref::base64(msgOf(p.ops.size() * 77 + 5, 16, false));
-		std::string req = "GET /chat HTTP/1.1\r\nHost: 127.0.0.1\r\nUpgrade: websocket\r\nConnection: Upgrade\r\nSec-WebSocket-Key: " + key + "\r\nSec-WebSocket-Version: 13\r\n\r\n";
+		// browsers list several tokens in Connection (Firefox: "keep-alive, Upgrade")
+		static const char* CONN[] = {"Upgrade", "keep-alive, Upgrade", "Upgrade, keep-alive"};
+		std::string req = std::string("GET /chat HTTP/1.1\r\nHost: 127.0.0.1\r\nUpgrade: websocket\r\nConnection: ") + CONN[std::abs(p.get("conn_hdr")) % 3] + "\r\nSec-WebSocket-Key: " + key + "\r\nSec-WebSocket-Version: 13\r\n\r\n";
 		sim::net::rawSend(fd, req.data(), req.size());
 		std::string head;
 		if (!readHttpHead(fd, head) || head.compare(0, 12, "HTTP/1.1 101") != 0)
@@ -800,6 +804,213 @@ void runHostileWs(const Plan& p)
 		sim::setNontrivial();
 }
 
+// ================================================================ several connections on one server
+// ops: cli(group, nmsgs, leaves)   group 0 connects in phase 1, group 1 in phase 3; "leaves" = closes in phase 2 (group 0 only)
+// The server echoes every message and, at two quiescent moments, broadcasts to clients() under mutex() the way the
+// class documentation describes. Every client must get its own echoes once and in order and every broadcast issued
+// while it was connected exactly once; clients() must list exactly the connections that are inside serve().
+struct MultiSrv : public asl::WebSocketServer
+{
+	asl::Mutex liveMutex;
+	std::vector<asl::WebSocket*> live;
+	volatile int entered = 0, exited = 0;
+	void serve(asl::WebSocket& ws)
+	{
+		{
+			asl::Lock l(liveMutex);
+			live.push_back(&ws);
+		}
+		__sync_fetch_and_add(&entered, 1);
+		for (;;)
+		{
+			if (!ws.wait(60) || ws.closed())
+				break;
+			asl::WebSocketMsg m = ws.receive();
+			if (m.length() <= 0)
+				continue;
+			asl::String t = m;
+			ws.send(asl::String("E:") + t);
+		}
+		{
+			asl::Lock l(liveMutex);
+			for (size_t i = 0; i < live.size(); i++)
+				if (live[i] == &ws)
+				{
+					live.erase(live.begin() + (long)i);
+					break;
+				}
+		}
+		__sync_fetch_and_add(&exited, 1);
+	}
+};
+
+struct MultiCli
+{
+	int group = 0, nmsgs = 0, leaves = 0, idx = 0;
+	volatile int connected = 0, closeNow = 0, done = 0;
+	std::vector<std::string> got;
+	Task task;
+};
+
+void genMulti(Prng& r, Plan& p, int)
+{
+	int n = 2 + (int)r.below(5);
+	for (int i = 0; i < n; i++)
+		p.ops.push_back(op("cli", {(int64_t)(i < 2 ? 0 : r.below(2)), (int64_t)r.below(4), (int64_t)r.below(2)}));
+	if (r.below(2))
+		p.p["knob.net.lat_us"] = 1 + r.below(20000);
+	if (r.below(2))
+		p.p["knob.net.frag"] = 10 + r.below(80);
+}
+
+void checkMembership(MultiSrv& srv, const char* when)
+{
+	std::vector<uintptr_t> listed, live;
+	{
+		asl::Lock l(srv.mutex());
+		for (int i = 0; i < srv.clients().length(); i++)
+			listed.push_back((uintptr_t)srv.clients()[i]);
+	}
+	{
+		asl::Lock l(srv.liveMutex);
+		for (auto* w : srv.live)
+			live.push_back((uintptr_t)w);
+	}
+	std::sort(listed.begin(), listed.end());
+	std::sort(live.begin(), live.end());
+	if (listed != live)
+		sim::fail("client_list", when, "%s: clients() lists %zu connections, %zu are inside serve()%s", when, listed.size(), live.size(),
+		          listed.size() == live.size() ? " (different objects)" : "");
+}
+
+void broadcast(MultiSrv& srv, const char* tag)
+{
+	asl::Lock l(srv.mutex());
+	for (int i = 0; i < srv.clients().length(); i++)
+		srv.clients()[i]->send(asl::String(tag));
+}
+
+void runMulti(const Plan& p)
+{
+	std::vector<MultiCli> cl;
+	for (auto& o : p.ops)
+		if (o.k == "cli" && cl.size() < 8)
+		{
+			MultiCli c;
+			c.group = (int)(std::abs(o.arg(0)) & 1);
+			c.nmsgs = (int)(std::abs(o.arg(1)) % 4);
+			c.leaves = (int)(std::abs(o.arg(2)) & 1);
+			c.idx = (int)cl.size();
+			cl.push_back(c);
+		}
+	MultiSrv* srv = new MultiSrv;
+	if (!srv->bind(PORT))
+	{
+		sim::fail("harness", "bind_failed", "bind failed");
+		delete srv;
+		return;
+	}
+	srv->start(true);
+	auto body = [&](MultiCli* c) {
+		asl::WebSocket ws;
+		if (!ws.connect("ws://127.0.0.1/chat", PORT))
+		{
+			c->done = 1;
+			return;
+		}
+		c->connected = 1;
+		for (int j = 0; j < c->nmsgs; j++)
+			ws.send(asl::String(0, "c%im%i", c->idx, j));
+		while (!c->closeNow)
+		{
+			if (!ws.wait(0.25))
+				continue;
+			if (ws.closed())
+				break;
+			asl::WebSocketMsg m = ws.receive();
+			if (m.length() > 0)
+				c->got.push_back(std::string((const char*)((asl::ByteArray)m).data(), (size_t)m.length()));
+		}
+		ws.close();
+		c->done = 1;
+	};
+	auto startGroup = [&](int g) {
+		for (auto& c : cl)
+			if (c.group == g)
+				c.task.start([&body, &c]() { body(&c); });
+	};
+	auto settle = [&]() { sim::sleepFor(4.0); };
+	std::vector<std::vector<std::string>> expectB(cl.size());
+	// phase 1: group 0 connects and talks
+	startGroup(0);
+	settle();
+	checkMembership(*srv, "after the first group connected");
+	broadcast(*srv, "B1");
+	for (auto& c : cl)
+		if (c.group == 0 && c.connected)
+			expectB[(size_t)c.idx].push_back("B1");
+	settle();
+	// phase 2: some of them leave (in index order, i.e. older connections first or not, as the plan says)
+	int left = 0;
+	for (auto& c : cl)
+		if (c.group == 0 && c.leaves)
+		{
+			c.closeNow = 1;
+			c.task.join();
+			left++;
+		}
+	settle();
+	checkMembership(*srv, "after some connections left");
+	// phase 3: group 1 connects
+	startGroup(1);
+	settle();
+	checkMembership(*srv, "after the second group connected");
+	broadcast(*srv, "B2");
+	for (auto& c : cl)
+		if (c.connected && !c.closeNow)
+			expectB[(size_t)c.idx].push_back("B2");
+	settle();
+	for (auto& c : cl)
+		if (!c.closeNow)
+		{
+			c.closeNow = 1;
+			if (c.task.id >= 0)
+				c.task.join();
+		}
+	settle();
+	checkMembership(*srv, "after all connections left");
+	srv->stop(true);
+	int entered = srv->entered, exited = srv->exited;
+	delete srv;
+	sim::NoSched ns;
+	int connected = 0;
+	for (auto& c : cl)
+		connected += c.connected;
+	if (entered != connected || exited != entered)
+		sim::fail("handshake", "serve_count;multi", "%d clients connected, serve(WebSocket&) entered %d times and returned %d times", connected, entered, exited);
+	for (auto& c : cl)
+	{
+		if (!c.connected)
+		{
+			sim::fail("handshake", "multi;connect", "client %d could not connect to the library's own server", c.idx);
+			continue;
+		}
+		std::vector<std::string> echoes, bcasts;
+		for (auto& g : c.got)
+			(g.compare(0, 2, "E:") == 0 ? echoes : bcasts).push_back(g);
+		std::vector<std::string> wantE;
+		for (int j = 0; j < c.nmsgs; j++)
+			wantE.push_back("E:c" + std::to_string(c.idx) + "m" + std::to_string(j));
+		if (echoes != wantE)
+			sim::fail("message_mismatch", "multi;echo", "client %d of %zu: sent %zu messages, got %zu echoes back (or other content/order)", c.idx, cl.size(), wantE.size(), echoes.size());
+		if (bcasts != expectB[(size_t)c.idx])
+			sim::fail("message_mismatch", "multi;broadcast", "client %d of %zu: %zu broadcasts were sent to the connections listed by clients() while it was connected, it received %zu", c.idx, cl.size(),
+			          expectB[(size_t)c.idx].size(), bcasts.size());
+	}
+	if (left > 0)
+		sim::setNontrivial();
+}
+
 const char* REAL11 = "src/WebSocket.cpp (client and server roles, handshake, send, receive), src/SHA1.cpp, src/util.cpp (Base64, Random), src/Socket.cpp, src/SocketServer.cpp, StreamBuffer.h";
 const char* STUB11 = "network (TCP stub with fragmentation, short sends, latency, small send buffers, peer close), clock, pthread primitives, /dev/urandom (served from the run's PRNG); independent SHA-1, Base64 and RFC 6455 framer/deframer in scen/ref";
 
@@ -810,5 +1021,7 @@ REGISTER_SCENARIO(c11_asl, "C11", "ws_asl", genAsl, runAsl, 15000, 600000, {4, 1
 REGISTER_SCENARIO(c11_framer, "C11", "ws_framer", genFramer, runFramer, 30000, 1500000, {4, 16, 64}, 0, 8000000, 30000.0,
                   "every run (frames built/checked by the independent framer: fragmentation into 1-4 frames, mask keys with zero bytes, pings before messages and between fragments); distinct by plan hash x context-switch signature", REAL11,
                   STUB11, false);
+REGISTER_SCENARIO(c11_multi, "C11", "ws_multi", genMulti, runMulti, 8000, 300000, {4, 16, 64}, 0, 3000000, 900.0,
+                  "non-trivial: at least one connection left while others stayed (the server's client list shrank in the middle); distinct by plan hash x context-switch signature", REAL11, STUB11, false);
 REGISTER_SCENARIO(c11_hostile, "C11", "ws_hostile", genHostileWs, runHostileWs, 30000, 1500000, {4, 16}, 0, 3000000, 900.0, "non-trivial: the frame stream was cut strictly inside; distinct by plan hash x context-switch signature", REAL11, STUB11,
                   false);
